@@ -506,6 +506,10 @@ func headerField(off int) string {
 }
 
 func fileRows(path string, table string) (int, error, string) {
+	return fileRowsCol(path, table, "rowid")
+}
+
+func fileRowsCol(path string, table string, col string) (int, error, string) {
 	var n int
 	var err error
 	p, pm := safely(func() {
@@ -515,7 +519,7 @@ func fileRows(path string, table string) (int, error, string) {
 			return
 		}
 		defer db.Close()
-		err = db.Select(table, func(sqlittle.Row) { n++ }, "rowid")
+		err = db.Select(table, func(sqlittle.Row) { n++ }, col)
 	})
 	if p {
 		return n, err, pm
@@ -641,6 +645,91 @@ func c15RealFiles(run *hx.Run, o *hx.Oracle, dir string) {
 		}
 		db.Close()
 	}
+	// 3c. combinations the byte-by-byte sweep does not reach: the schema format field of a database WITHOUT tables is
+	// 0, which is why a reader looks at it leniently - but a format above 4 whose low byte is 0, or a UTF-16 encoding
+	// next to format 0, is still what the property lists for refusal. SQLite itself writes "format 0, UTF-16": a
+	// UTF-16 database whose tables were all dropped, vacuumed.
+	{
+		usable := func(p string) (bool, string) { // does the file open and list its tables?
+			var oerr error
+			ok := false
+			_, pm := safely(func() {
+				low, err := sdb.OpenFile(p)
+				if err != nil {
+					oerr = err
+					return
+				}
+				defer low.Close()
+				if err := low.RLock(); err != nil {
+					oerr = err
+					return
+				}
+				defer low.RUnlock()
+				if _, err := low.Tables(); err != nil {
+					oerr = err
+					return
+				}
+				ok = true
+			})
+			if pm != "" {
+				return true, "panic: " + firstLines(pm, 2)
+			}
+			if oerr != nil {
+				return false, oerr.Error()
+			}
+			return ok, ""
+		}
+		refuse := func(name, p, why string) {
+			ok, msg := usable(p)
+			n, rerr, _ := fileRows(p, "t")
+			run.Eval(1)
+			run.DistinctN(1)
+			if ok {
+				run.Violation("C15/not-refused/combination/"+name, fmt.Sprintf("%s: opened and listed without an error (%d rows of t, err=%v) - %s", name, n, rerr, why), nil)
+			} else {
+				run.See("combination_refused", name+": "+clip(msg, 50))
+			}
+		}
+		empty := filepath.Join(dir, "combo-empty.sqlite")
+		if err := o.Exec(empty, "PRAGMA user_version=3"); err == nil {
+			if hb, err := os.ReadFile(empty); err == nil && len(hb) >= 100 && binary.BigEndian.Uint32(hb[44:48]) == 0 {
+				for _, f := range []uint32{0x100, 0x10000, 0x1000000, 0x500, 0xff000000, 0x01000100} {
+					img := append([]byte{}, hb...)
+					binary.BigEndian.PutUint32(img[44:48], f)
+					p := filepath.Join(dir, fmt.Sprintf("combo-empty-format-%x.sqlite", f))
+					os.WriteFile(p, img, 0o644)
+					refuse(fmt.Sprintf("empty-database-schema-format-0x%x", f), p, "a schema format above 4")
+				}
+				for _, e := range []uint32{2, 3} {
+					img := append([]byte{}, hb...)
+					binary.BigEndian.PutUint32(img[56:60], e)
+					p := filepath.Join(dir, fmt.Sprintf("combo-empty-encoding-%d.sqlite", e))
+					os.WriteFile(p, img, 0o644)
+					refuse(fmt.Sprintf("empty-database-encoding-%d", e), p, "a UTF-16 text encoding")
+				}
+			}
+		}
+		for _, enc := range []string{"UTF-16le", "UTF-16be"} {
+			p := filepath.Join(dir, "combo-dropped-"+enc+".sqlite")
+			if err := o.Exec(p, "PRAGMA encoding='"+enc+"'", "CREATE TABLE t(a)", "INSERT INTO t VALUES('x')", "DROP TABLE t", "VACUUM"); err == nil {
+				if hb, err := os.ReadFile(p); err == nil && len(hb) >= 100 {
+					run.See("utf16_emptied_header", fmt.Sprintf("%s: schema format %d, text encoding %d", enc, binary.BigEndian.Uint32(hb[44:48]), binary.BigEndian.Uint32(hb[56:60])))
+					if binary.BigEndian.Uint32(hb[56:60]) >= 2 {
+						refuse("utf16-database-emptied-and-vacuumed-"+enc, p, "a UTF-16 text encoding (written by SQLite itself)")
+					}
+				}
+			}
+			// a populated UTF-16 file whose schema format field reads 0
+			src := filepath.Join(dir, enc+".sqlite")
+			if hb, err := os.ReadFile(src); err == nil && len(hb) >= 100 {
+				img := append([]byte{}, hb...)
+				copy(img[44:48], []byte{0, 0, 0, 0})
+				p2 := filepath.Join(dir, "combo-format0-"+enc+".sqlite")
+				os.WriteFile(p2, img, 0o644)
+				refuse("populated-"+enc+"-with-schema-format-0", p2, "a UTF-16 text encoding")
+			}
+		}
+	}
 	// 4. schema formats 1..4 (mkformat)
 	mk := filepath.Join(hx.VerifDir(), "bin", "mkformat")
 	type fcase struct {
@@ -657,6 +746,9 @@ func c15RealFiles(run *hx.Run, o *hx.Oracle, dir string) {
 		// a DESC index made while the file was in a legacy format: formats 1-3 ignore DESC (the entries are stored ascending)
 		{"format2-desc-index", "1", []string{"CREATE TABLE t(a,b)", "INSERT INTO t VALUES(1,'x'),(2,'y'),(3,'z'),(4,'w'),(5,'v')", "CREATE INDEX i ON t(a DESC)", "ALTER TABLE t ADD COLUMN c"}},
 		{"format3-desc-index", "1", []string{"CREATE TABLE t(a,b)", "INSERT INTO t VALUES(1,'x'),(2,'y'),(3,'z'),(4,'w'),(5,'v')", "CREATE INDEX i ON t(a DESC, b)", "ALTER TABLE t ADD COLUMN c DEFAULT 7"}},
+		// WITHOUT ROWID in a legacy-format file: DESC is ignored in the primary key, too
+		{"format2-wr-desc-index", "1", []string{"CREATE TABLE t(a, b, PRIMARY KEY(b DESC)) WITHOUT ROWID", "INSERT INTO t VALUES(1,'x'),(2,'y'),(3,'z'),(4,'w'),(5,'v')", "CREATE INDEX i ON t(a DESC)", "ALTER TABLE t ADD COLUMN c"}},
+		{"format4-wr-desc-index", "0", []string{"CREATE TABLE t(a, b, PRIMARY KEY(b DESC)) WITHOUT ROWID", "INSERT INTO t VALUES(1,'x'),(2,'y'),(3,'z'),(4,'w'),(5,'v')", "CREATE INDEX i ON t(a DESC)"}},
 		{"format4-desc-index", "0", []string{"CREATE TABLE t(a,b)", "INSERT INTO t VALUES(1,'x'),(2,'y'),(3,'z'),(4,'w'),(5,'v')", "CREATE INDEX i ON t(a DESC, b)"}},
 	}
 	var made []fcase // name + path (in legacy)
@@ -687,7 +779,7 @@ func c15RealFiles(run *hx.Run, o *hx.Oracle, dir string) {
 			run.Inconclusive("format reference: " + err.Error())
 			continue
 		}
-		n, err, pm := fileRows(p, "t")
+		n, err, pm := fileRowsCol(p, "t", map[bool]string{true: "a", false: "rowid"}[strings.Contains(c.name, "-wr-")])
 		run.Eval(1)
 		run.DistinctN(1)
 		run.See("schema_format_written", fmt.Sprint(format))
@@ -732,6 +824,24 @@ func c15RealFiles(run *hx.Run, o *hx.Oracle, dir string) {
 						}
 						if !ok {
 							run.Violation(key+"/index-order", fmt.Sprintf("%s (schema format %d): IndexedSelect(t, i) order %v, the stored order is %v", c.name, format, ord, wantOrd), nil)
+						}
+					}
+					// another connection VACUUMs the legacy file while the handle is open: SQLite rewrites it in format 4,
+					// with the DESC index now stored descending - the handle has to search it that way from now on
+					if format < 4 && format > 0 {
+						if err := o.Exec(p, "VACUUM"); err == nil {
+							nb, _ := os.ReadFile(p)
+							run.See("legacy_file_vacuumed_under_handle", fmt.Sprintf("format %d -> %d", format, binary.BigEndian.Uint32(nb[44:48])))
+							for _, k := range keys {
+								cnt, _ := o.Query(p, "SELECT count(*) FROM t WHERE a IS ?1", k[0])
+								got := 0
+								err := db.IndexedSelectEq("t", "i", sqlittle.Key{k[0]}, func(sqlittle.Row) { got++ }, "a")
+								run.Eval(1)
+								if err != nil || len(cnt) != 1 || int64(got) != cnt[0][0].(int64) {
+									run.Violation("C15/real/legacy-vacuumed-under-handle/index-search", fmt.Sprintf("%s: written in schema format %d, VACUUMed by another connection (now format %d) while the handle was open: IndexedSelectEq(t, i, %s) finds %d rows (err=%v), SQLite finds %v", c.name, format, binary.BigEndian.Uint32(nb[44:48]), hx.ValueString(k[0]), got, err, cnt), nil)
+									break
+								}
+							}
 						}
 					}
 					db.Close()
